@@ -30,7 +30,7 @@ type Params struct {
 	NSess    int    // Consume calls per member
 	Faults   []string
 	Strategy string
-	Init     string // none | valid | oor
+	Init     string // none | zero | valid | oor
 	Gates    map[string]bool
 	SetupErr bool
 	CleanErr bool
@@ -265,6 +265,9 @@ func run(c *gx.Ctl, p *Params) *gx.Outcome {
 		switch p.Init {
 		case "valid":
 			g.Offsets[simkafka.TP{Topic: "t", Partition: int32(i)}] = simkafka.StoredOffset{Offset: 1}
+		case "zero":
+			// a commit at offset 0 (an application that reset to the beginning): "committed" and not "none"
+			g.Offsets[simkafka.TP{Topic: "t", Partition: int32(i)}] = simkafka.StoredOffset{Offset: 0}
 		case "oor":
 			g.Offsets[simkafka.TP{Topic: "t", Partition: int32(i)}] = simkafka.StoredOffset{Offset: int64(p.N + 5)}
 		}
